@@ -188,8 +188,8 @@ for $t in flatten($all):
             "increment (distinct messages could share an integer)")
     base = fd.args.args[2].arg
     comm = fd.args.args[0].arg
-    if fs:
-        e = fs[0]
+    e = fs[0] if fs else {"$map": "numbering_not_found__", "$next": "counter_not_found__"}
+    if True:
         c.check(has(fd, f"{e['$next']} = {base}"), "R09-TAGS",
                 "distributed.tags.number_distributed_tags", "starts-at-base_tag", where,
                 "numbering does not start at base_tag")
